@@ -55,7 +55,7 @@ class C06(Prop):
         "a text column holds text in every row (dtype is decided from the first row)",
         "the write half uses default writer options plus a drawn version/wrap",
     ]
-    quick = {"runs": 5000, "wall": 40}
+    quick = {"runs": 40000, "wall": 60}
     thorough = {"runs": 300000, "wall": 900}
 
     def gen(self, st, tier, index):
